@@ -162,6 +162,9 @@ func consCLI(c *rt.Ctx, cs ConsCase) (key, what string) {
 	}
 	defer os.RemoveAll(root)
 	mdir := filepath.Join(root, "migrations")
+	if len(cs.Edit)%2 == 1 {
+		mdir = filepath.Join(root, "app[v2]", "migrations[1]") // glob meta characters in the path
+	}
 	for _, d := range []string{mdir, filepath.Join(root, "home"), filepath.Join(root, "tmp")} {
 		os.MkdirAll(d, 0o755)
 	}
